@@ -1426,7 +1426,7 @@ func must(err error) {
 
 func main() {
 	if len(os.Args) < 2 {
-		fmt.Fprintln(os.Stderr, "usage: triedrv replay|random|derive ...")
+		fmt.Fprintln(os.Stderr, "usage: triedrv replay|random|derive|gc|gcrandom ...")
 		os.Exit(2)
 	}
 	switch os.Args[1] {
@@ -1436,6 +1436,10 @@ func main() {
 		cmdRandom(os.Args[2:])
 	case "derive":
 		cmdDerive(os.Args[2:])
+	case "gc":
+		cmdGC(os.Args[2:])
+	case "gcrandom":
+		cmdGCRandom(os.Args[2:])
 	default:
 		os.Exit(2)
 	}
